@@ -20,11 +20,11 @@ trap 'git -C /repo worktree remove --force "$V" >/dev/null 2>&1' EXIT
 while read -r f; do mkdir -p "$V/$(dirname "$f")"; cp "$D/demo/$f" "$V/$f"; done < "$D/demo/FILES"
 cd "$V"
 echo "== (1) demonstration on the unchanged code"
-go test -vet=off -count=1 -run "$RUN" "$PKG" 2>&1 | tail -3; r1=${PIPESTATUS[0]}
+go test ${TAGS:+-tags $TAGS} ${RACE:+-race} -vet=off -count=1 -run "$RUN" $PKG 2>&1 | tail -3; r1=${PIPESTATUS[0]}
 echo "== (2) apply + build"
 git apply "$D/patch.diff" && go build ./... 2>&1 | grep -v 'ld: ' | tail -3; r2=$?
 echo "== (3) demonstration with the change"
-go test -vet=off -count=1 -run "$RUN" "$PKG" 2>&1 | grep -v 'ld: ' | tail -6; r3=${PIPESTATUS[0]}
+go test ${TAGS:+-tags $TAGS} ${RACE:+-race} -vet=off -count=1 -run "$RUN" $PKG 2>&1 | grep -v 'ld: ' | tail -6; r3=${PIPESTATUS[0]}
 echo "== (4) existing tests of touched packages (demo files removed)"
 while read -r f; do rm -f "$V/$f"; done < "$D/demo/FILES"
 PKGS=$(git diff --name-only | xargs -n1 dirname | sort -u | sed 's#^#./#')
